@@ -113,24 +113,17 @@ def run(R, tier):
             need = C_bits(ity) + (1 if ity.startswith("i") else 0)
             R.check(good and bufs and min(bufs) >= need, "R09.1", "%s:%s" % (ity, wname), "prefix %r then write_with_options::<%s, radix %d>(self.0); buffer %s >= %d" % (prefix.decode(), ity, radix, bufs, need), "%s<%s> writer: prefix %r, radix %d, value self.0, returned slice pushed, buffer >= %d bytes required: %s buffers %s" % (wname, ity, prefix.decode(), radix, need, [p.describe() for p in ps], bufs), where=b2.span)
     R.floor("R09.1", "integer writers", n_int, 40)
-    # prefix letter <-> radix agrees with the lexer's radix table (writer/reader agreement)
-    rb = u.body("scpi::parser::tokenizer::Tokenizer::read_nondecimal_data")
-    engl = fdai.Engine(P, u, inline=D.inline_inherent(("scpi::parser::tokenizer::",), exclude=("scpi::parser::tokenizer::Tokenizer::skip_ws_to_separator",)), models={})
+    # prefix letter <-> radix agrees with the lexer (writer/reader agreement): the lexer's element table reads `10` after
+    # each letter as the radix the writers pair with that letter (R09.1), and refuses other letters
+    from . import lexer as LX
+    tab, span_ = LX.element_table(("non-decimal",), False)
+    rows = {d: g for d, g, e in tab["non-decimal"]}
     reader = {}
-    for letter in b"HhQqBbXx":
-        res = engl.run(rb, [RefV(Cell(TOP, "tok"), (), True), K(letter)])
-        rad = set()
-        for r in res:
-            for e in r.trace:
-                if e.kind == "call" and "parse_partial_with_options" in e.name:
-                    g = (e.extra or {}).get("gargs") or ()
-                    if len(g) > 1 and g[1].isdigit():
-                        rad.add((int(g[1]) >> 104) & 0xFF)
-            if not any(e.kind == "call" and "parse_partial" in e.name for e in r.trace):
-                rad.add(M.outcome(r))
-        reader[chr(letter)] = rad
-    exp_reader = {"H": {16}, "h": {16}, "Q": {8}, "q": {8}, "B": {2}, "b": {2}, "X": {"Err(NumericDataError)"}, "x": {"Err(NumericDataError)"}}
-    R.check(reader == exp_reader, "R09.8", "radix-letters", "reader: H/h->16, Q/q->8, B/b->2, other -> -120; writers use the same letters", "lexer radix table %s disagrees with the #H/#Q/#B writers" % reader, where=rb.span)
+    for letter in "HhQqBbXZ":
+        g = rows.get(("#%s10" % letter).encode())
+        reader[letter] = g[2] if isinstance(g, tuple) and g and g[0] == "Ok" else (g[0] if isinstance(g, tuple) and g else g)
+    exp_reader = {"H": 16, "h": 16, "Q": 8, "q": 8, "B": 2, "b": 2, "X": "Err", "Z": "Err"}
+    R.check(reader == exp_reader, "R09.8", "radix-letters", "reader: #H/#h -> 16, #Q/#q -> 8, #B/#b -> 2, other letters refused; the writers use the same letters", "lexer radix table %s disagrees with the #H/#Q/#B writers" % reader, where=span_)
 
     # ---- R09.2 reals -------------------------------------------------------------------------------------
     for fty in ("f32", "f64"):
